@@ -179,7 +179,12 @@ def _undefined_read_in_conditional_value(spec):
             return any(reads(x) for x in e[1:])
         return False
 
-    return any(e.get("cond") is not None and reads(e["val"]) for a in spec["actions"] for e in a.get("eff", []))
+    # (a conditional increase / decrease reads its own target: its value is f +- c)
+    return any(
+        e.get("cond") is not None and (reads(e["val"]) or (e["kind"] in ("inc", "dec") and reads(e["fl"])))
+        for a in spec["actions"]
+        for e in a.get("eff", [])
+    )
 
 
 def spec_hash(spec):
